@@ -165,10 +165,16 @@ def leanchecker(modules):
     r = subprocess.run(["lake", "env", "leanchecker"] + modules, cwd=LEAN, capture_output=True, text=True)
     return r.returncode == 0, (r.stdout + r.stderr)[-1500:]
 
+OPS_USED = {}      # driver operation -> number of lines sent in this process (harness/tie_audit.py)
+
+
 def run_driver(lines):
     """feed JSON objects to the Lean driver, one per line; returns the parsed outputs"""
     if not lines:
         return []
+    for l in lines:
+        op = l.get("op") if isinstance(l, dict) else None
+        OPS_USED[op] = OPS_USED.get(op, 0) + 1
     if not os.path.exists(DRIVER):
         ok, log = lean_build(["driver"])
         if not ok:
